@@ -68,6 +68,11 @@ def model_exes(cfg):
     return exes, log
 
 
+# the extracted models recurse over their input lists (native OCaml uses the system stack): streams of > 10^5 words
+# need more than the default 8 MB
+BIG_STACK = "ulimit -s unlimited 2>/dev/null || ulimit -s 4000000 2>/dev/null; "
+
+
 def run_models(exes, cases_path, work, jobs=1):
     """every case line through every unit's runner (first answer that is not `unknown-case` wins); with jobs > 1 the
     case file is cut round-robin into slices that run concurrently (case lines are independent)"""
@@ -77,7 +82,7 @@ def run_models(exes, cases_path, work, jobs=1):
     for k, exe in enumerate(exes):
         if jobs == 1:
             mp = os.path.join(work, "model%d.txt" % k)
-            sh("%s < %s > %s" % (exe, cases_path, mp), timeout=12000)
+            sh("%s%s < %s > %s" % (BIG_STACK, exe, cases_path, mp), timeout=12000)
             outs.append(read_lines(mp))
             continue
         procs = []
@@ -86,7 +91,7 @@ def run_models(exes, cases_path, work, jobs=1):
             with open(sp, "w") as f:
                 f.write("".join(l + "\n" for l in lines[j::jobs]))
             op = os.path.join(work, "model%d_%d.txt" % (k, j))
-            procs.append((subprocess.Popen("%s < %s > %s" % (exe, sp, op), shell=True, env=vlib.ENV), op))
+            procs.append((subprocess.Popen("%s%s < %s > %s" % (BIG_STACK, exe, sp, op), shell=True, env=vlib.ENV), op))
         res = [None] * len(lines)
         for j, (pr, op) in enumerate(procs):
             pr.wait()
